@@ -2,6 +2,7 @@ import Driver.Common
 import ScionTime.Model.Unixutil
 import ScionTime.Model.CsptpConv
 import ScionTime.Model.FreqDrift
+import ScionTime.Model.CsptpClient
 import Driver.F64Ops
 open Driver ScionTime.Unixutil ScionTime.CsptpConv ScionTime.FreqDrift
 
@@ -16,6 +17,15 @@ open Driver ScionTime.Unixutil ScionTime.CsptpConv ScionTime.FreqDrift
   ux.freq2ppm <double>                       -> ok <int64>
   tm.duration <double>                       -> ok <int64>
   clk.drift <drift ns> <duration ns>         -> ok <int64>   (NewSystemClock(_, drift).Drift(duration))
+  the CSPTP client's evaluation of a complete exchange (Model/CsptpClient.lean; harness/cmd/c08net, part c18):
+  csptpcli.eval t0=<unix ns> t3=<unix ns> seq=<n> sync=<hex> fu=<hex>
+      -> ok ts=<unix ns> off=<ns> c2s=<ns> s2c=<ns> mpd=<ns> | err <verdict>
+      (a recorded live exchange: t0/t3 are the client's kernel timestamps, sync/fu the two response
+       datagrams the scripted responder sent; the answer is what the real client returned and logged)
+  csptpcli.run <responder parameters…>       -> ok doff=0 dmpd=0 ds2c=0 dlog=0
+      (a live exchange whose result the harness compares with the exact formulas evaluated on the
+       values the responder chose: the model's claim for EVERY exchange is zero deviation —
+       Props/C18Client.lean, C18_client_offset_exact)
 -/
 def i64? (s : String) : Option Int64 :=
   match parseInt? s with
@@ -31,8 +41,21 @@ def time? (s n : String) : Option Int :=
 def msgBefore : String := "panic explicit:invalid_argument:_t_must_not_be_before_1970-01-01T00:00:00Z"
 def msgAfter : String := "panic explicit:invalid_argument:_t_must_not_be_after_8921556-12-07T10:44:15"
 
+def csptpEval (toks : List String) : String :=
+  match (kv? toks "t0").bind parseInt?, (kv? toks "t3").bind parseInt?, (kv? toks "seq").bind parseNat?,
+        (kv? toks "sync").bind parseHex?, (kv? toks "fu").bind parseHex? with
+  | some t0, some t3, some seq, some sync, some fu =>
+    if seq < 65536 ∧ sync.length ≤ 98 ∧ fu.length ≤ 98 then
+      match ScionTime.CsptpClient.evaluateDatagrams t0 t3 sync fu seq with
+      | .ok e => s!"ok ts={e.timestamp} off={e.clockOffset.toInt} c2s={e.c2sDelay.toInt} s2c={e.s2cDelay.toInt} mpd={e.meanPathDelay.toInt}"
+      | .error _ => "err incomplete"
+    else "bad-op"
+  | _, _, _, _, _ => "bad-op"
+
 def step (_ : Unit) (toks : List String) : Unit × String :=
   match toks with
+  | "csptpcli.eval" :: rest => if rest.length = 5 then ((), csptpEval rest) else ((), "bad-op")
+  | "csptpcli.run" :: _ :: _ => ((), "ok doff=0 dmpd=0 ds2c=0 dlog=0")
   | ["ux.timeval", n] =>
     match i64? n with
     | some n => let tv := timevalFromNsec n; ((), s!"ok {tv.sec.toInt} {tv.usec.toInt}")
